@@ -584,6 +584,99 @@ def exhaustive_small_list(ctx, g):
     ctx.case("exhaustive-small-list", True)
 
 
+def exhaustive_small_sets(ctx, g):
+    """Every method and operator of the five owning node sets on a fixed small structure, with every argument shape (member,
+    free node, node owned by a sibling, several, repeated, none, the receiver itself) -- each mutating call on a fresh structure,
+    against the built-in set, deterministically on every run; ownership checked after every mutating call."""
+    def fresh(which):
+        ir = g.IR()
+        m, m2 = g.Module(name="m", ir=ir), g.Module(name="m2", ir=ir)
+        s, s2 = g.Section(name="s", module=m), g.Section(name="s2", module=m2)
+        bi, bi2 = g.ByteInterval(size=16, section=s), g.ByteInterval(size=16, section=s2)
+        mk = {"sections": lambda o: g.Section(name="x", module=o), "symbols": lambda o: g.Symbol("y", module=o), "proxies": lambda o: g.ProxyBlock(module=o),
+              "byte_intervals": lambda o: g.ByteInterval(size=4, section=o), "blocks": lambda o: g.CodeBlock(size=1, byte_interval=o)}[which]
+        owner, sib = {"sections": (m, m2), "symbols": (m, m2), "proxies": (m, m2), "byte_intervals": (s, s2), "blocks": (bi, bi2)}[which]
+        if which == "sections":
+            mem = [s, mk(owner)]
+            other = s2
+        elif which == "byte_intervals":
+            mem = [bi, mk(owner)]
+            other = bi2
+        else:
+            mem = [mk(owner), mk(owner)]
+            other = mk(sib)
+        free = mk(None)
+        coll = getattr(owner, which)
+        return coll, owner, getattr(sib, which), sib, {"a": mem[0], "b": mem[1], "o": other, "f": free}
+    PARENT = {"sections": "module", "symbols": "module", "proxies": "module", "byte_intervals": "section", "blocks": "byte_interval"}
+    ARGS = [[], ["a"], ["f"], ["o"], ["a", "f"], ["f", "f"], ["a", "b"], ["o", "f", "a"]]
+
+    def outcome(f):
+        try:
+            return ("ok", f())
+        except Exception as e:  # noqa: BLE001
+            return ("err", exc_name(g, e))
+    for which in ("sections", "symbols", "proxies", "byte_intervals", "blocks"):
+        calls = []
+        for x in ("a", "f", "o"):
+            calls += [("add", x), ("discard", x), ("remove", x)]
+        calls += [("pop", None), ("clear", None)]
+        for arg in ARGS + ["SELF"]:
+            calls += [(op, arg) for op in ("update", "ior", "iand", "isub", "ixor", "or", "and", "sub", "xor", "ror", "rsub", "le", "lt", "eq", "ge", "isdisjoint")]
+        for op, arg in calls:
+            coll, owner, sibcoll, sib, N = fresh(which)
+            lab = {id(v): k for k, v in N.items()}
+            sh = {"a", "b"}
+            self_alias = arg == "SELF"
+            objs = coll if self_alias else ([N[x] for x in arg] if isinstance(arg, list) else (N[arg] if arg else None))
+            labs = set(sh) if self_alias else (set(arg) if isinstance(arg, list) else arg)
+
+            def names(r):
+                return sorted(lab.get(id(x), "?") for x in r)
+            fi = {
+                "add": lambda: coll.add(objs), "discard": lambda: coll.discard(objs), "remove": lambda: coll.remove(objs),
+                "pop": lambda: lab[id(coll.pop())] in ("a", "b") or "bad", "clear": lambda: coll.clear(),
+                "update": lambda: coll.update(objs), "ior": lambda: coll.__ior__(objs) is coll or "not self", "iand": lambda: coll.__iand__(objs) is coll or "not self",
+                "isub": lambda: coll.__isub__(objs) is coll or "not self", "ixor": lambda: coll.__ixor__(objs) is coll or "not self",
+                "or": lambda: names(coll | set(objs)), "and": lambda: names(coll & set(objs)), "sub": lambda: names(coll - set(objs)), "xor": lambda: names(coll ^ set(objs)),
+                "ror": lambda: names(set(objs) | coll), "rsub": lambda: names(set(objs) - coll),
+                "le": lambda: coll <= set(objs), "lt": lambda: coll < set(objs), "eq": lambda: coll == set(objs), "ge": lambda: coll >= set(objs),
+                "isdisjoint": lambda: coll.isdisjoint(objs),
+            }[op]
+            fs = {
+                "add": lambda: sh.add(labs), "discard": lambda: sh.discard(labs), "remove": lambda: sh.remove(labs),
+                "pop": lambda: (sh.pop() in ("a", "b")) or "bad", "clear": lambda: sh.clear(),
+                "update": lambda: sh.update(labs), "ior": lambda: sh.__ior__(set(labs)) is sh or "not self", "iand": lambda: sh.__iand__(set(labs)) is sh or "not self",
+                "isub": lambda: sh.__isub__(set(labs)) is sh or "not self", "ixor": lambda: sh.__ixor__(set(labs)) is sh or "not self",
+                "or": lambda: sorted(sh | set(labs)), "and": lambda: sorted(sh & set(labs)), "sub": lambda: sorted(sh - set(labs)), "xor": lambda: sorted(sh ^ set(labs)),
+                "ror": lambda: sorted(set(labs) | sh), "rsub": lambda: sorted(set(labs) - sh),
+                "le": lambda: sh <= set(labs), "lt": lambda: sh < set(labs), "eq": lambda: sh == set(labs), "ge": lambda: sh >= set(labs),
+                "isdisjoint": lambda: sh.isdisjoint(labs),
+            }[op]
+            if op == "pop":
+                ri = outcome(fi)
+                if ri == ("ok", True):
+                    sh.clear()
+                    sh.update(names(coll))      # whichever member was taken
+                rs = ("ok", True)
+            else:
+                ri, rs = outcome(fi), outcome(fs)
+            ctx.count("exhaustive_set_calls")
+            desc = "%s.%s(%s)" % (which, op, "itself" if self_alias else arg)
+            if ri != rs:
+                ctx.add("oracle", "not-like-builtin:" + op, "%s on members {a, b} (f free, o owned by a sibling): returns/raises %s, the built-in set %s" % (desc, ri, rs),
+                        {"call": desc, "impl": repr(ri), "builtin": repr(rs)})
+                continue
+            got = set(names(coll))
+            pa = PARENT[which]
+            owners = {k: getattr(v, pa) for k, v in N.items()}
+            want_owner = {k: (owner if k in sh else (sib if k == "o" else None)) for k in N}
+            if got != sh or any(owners[k] is not want_owner[k] for k in N) or (("o" in sh) == (N["o"] in sibcoll)):
+                ctx.add("oracle", "not-like-builtin:" + op, "%s: members are %s and parents %s; the built-in set gives %s (a node added while owned elsewhere moves)"
+                        % (desc, sorted(got), {k: (None if v is None else ("owner" if v is owner else "sibling")) for k, v in owners.items()}, sorted(sh)), {"call": desc})
+    ctx.case("exhaustive-small-sets", True)
+
+
 def d4_stream(ctx, g):
     """the recorded defect: assigning into ir.modules an element that is elsewhere in the same list, and reverse()"""
     for shape in ("setitem-same-list", "setslice-same-list"):
@@ -636,6 +729,7 @@ def run(ctx):
         ctx.case(repr(h.items), True)
     d4_stream(ctx, g)
     exhaustive_small_list(ctx, g)
+    exhaustive_small_sets(ctx, g)
     worldgen.compare(ctx, hists, "wrappers", "C16 collection correspondence")
     ctx.cov["histories"] = nh
     ctx.cov["traces_validated_against_impl"] = nh
